@@ -361,7 +361,16 @@ def run(ctx):
                    'before it stores another one (and never destroys without storing again)', minimum=8)
     rha = ctx.rule('R-HANDLEASSIGN', 'IntrusivePtr same-type move assignment swaps (the handles\' defaulted move '
                    'assignment relies on the moved-from destructor protocol)', minimum=4)
+    rad = ctx.rule('R-ADOPT', 'a function that adopts (NoRefTag) a reference to an object it was handed - the executor of '
+                   'Run / Schedule / MakeContractOn - has taken that reference itself: IncRef calls and adoptions of the '
+                   'object balance on every path, IncRef first', minimum=4)
+    from rules import lib_attach
+    rho = ctx.rule('R-HANDOFF', 'a When* combinator is not touched after its last input has been registered: the registration loop\'s condition / increment and the code after it work on locals only', minimum=2)
     for cfg, fb in sorted(fbs.items()):
+        from rules import lib_when as _lw2
+        if (ctx.guard(lambda: _lw2.check_handoff_loops(ctx, fb, rho)) or 0) < 1:
+            ctx.guard(lambda: ctx.broken('R-HANDOFF: no registration loop of a When* combinator found'))
+        ctx.guard(lambda: lib_attach.check_adopt(ctx, fb, rad, 4))
         ctx.guard(lambda: lib_core.check_handle_assign(ctx, fb, rha))
         if (ctx.guard(lambda: lib_core.check_store_over(ctx, fb, rso)) or 0) < 4:
             ctx.guard(lambda: ctx.broken('R-STOREOVER: no method of a constructed-ready core (ReadyCore) found in %s' % cfg))
